@@ -16,6 +16,7 @@ import z3
 from pyvc import matmodel, ops
 from pyvc.core import QAll
 from pyvc.harness import unit
+from pyvc.interp import PyFunc
 from pyvc.values import Arr, Mat, Obj, Opaque
 
 from .common import mk_iterate, mk_params, mk_problem
@@ -275,7 +276,10 @@ def symmetric_assembly(u):
     b0 = _fresh_vec(u.it, "b0", na)
     b1 = _fresh_vec(u.it, "b1", n - na)
     b2t = _fresh_vec(u.it, "b2t", m)
+    products = []
+    u.it.hooks["mv"] = lambda it, mat, x, r: products.append((mat, x, r))
     dx, dy, rcond = u.method(ss, "solve_scaled", b0, b1, b2t)
+    u.it.hooks.pop("mv", None)
     counts = list(u.path.ghost.get("__where_counts__", {}).values())
     # np.where(active) is called first, np.where(not active) second (several times: the enumerations of one mask are
     # the same function; only the first pair is used for the index maps below)
@@ -312,4 +316,79 @@ def symmetric_assembly(u):
     # right-hand side: (b1 - (H0+lamb I)[I,A] b0, b2t - J[:,A] b0) with the products taken with the gathered blocks
     rhs = sol_holder["rhs"]
     u.ensure((rhs.n == ni + m) if not isinstance(rhs.n, int) else True, "rhs_has_length|I|+m")
+    # ... its VALUES: two products with b0 are formed, one with the gathered block (H0+lamb I)[I,A] and one with
+    # J[:,A] (entrywise statements about the very matrices the code multiplies with), and they are SUBTRACTED
+    withb0 = [(mat, r) for (mat, x, r) in products if x is b0 or (hasattr(x, "cell") and x.cell is b0.cell)]
+    ok = u.ensure(len(withb0) == 2, "rhs:exactly_two_products_with_b0", desc=f"{len(withb0)} products with b0")
+    if ok:
+        (XH, rH), (XJ, rJ) = withb0
+        eXH, eXJ = matmodel.entry_fn(u.it, XH), matmodel.entry_fn(u.it, XJ)
+        t, a_, q = u.int("t"), u.int("a"), u.int("q")
+        u.path.index_term(t, ni)
+        u.path.index_term(a_, na)
+        u.path.index_term(q, m)
+        u.path.index_term(ni + q, ni + m)
+        rng = z3.And(t >= 0, t < ni, a_ >= 0, a_ < na, q >= 0, q < m)
+        u.ensure(z3.Implies(rng, eXH(t, a_) == eH(inact.f(t), ai.f(a_)) + lam * kron(inact.f(t), ai.f(a_))), "rhs:first_factor==(H0+lamb*I)[inactive,active]")
+        u.ensure(z3.Implies(rng, eXJ(q, a_) == eJ(q, ai.f(a_))), "rhs:second_factor==J[:,active]")
+        rv = V(rhs)
+        u.ensure(z3.Implies(rng, rv.f(t) == V(b1).f(t) - V(rH).f(t)), "rhs[:|I|]==b1-(H0+lamb*I)[I,A]@b0")
+        u.ensure(z3.Implies(rng, rv.f(ni + q) == V(b2t).f(q) - V(rJ).f(q)), "rhs[|I|:]==b2t-J[:,A]@b0")
+    u.cover("end")
+
+
+@unit("C14.factories.dispatch", ["C14", "C06"], ["pygradflow.newton.newton_method", "pygradflow.step.solver.step_solver", "pygradflow.newton.GlobalizedNewtonMethod.__init__", "pygradflow.newton.NewtonMethod.__init__"], config={"max_paths": 100})
+def factories_dispatch(u):
+    """the two factories are total on their enums and hand out the class the parameters ask for (a wrong branch or a
+    failing internal assert would surface as an internal error inside solve, C06): newton_method over all four
+    NewtonType values incl. Globalized, step_solver over all four StepSolverType values and a user-supplied factory"""
+    problem = mk_problem(u)
+    dt, rho = u.real("dt"), u.real("rho")
+    u.assume(dt > 0)
+    u.assume(rho > 0)
+    which = u.path.choose("step_solver factory (else newton_method)")
+    A = u.it.abstract
+    if which:
+        names = ["Standard", "Extended", "Symmetric", "Asymmetric"]
+        k = u.path.choose_n(4, "step solver type")
+        custom = u.path.choose("params.step_solver factory given")
+        params = mk_params(u, step_solver_type=u.enum("pygradflow.params.StepSolverType", names[k]))
+        orig = mk_iterate(u, problem, params, "orig", in_box=True)
+        built = []
+        mods = {"Standard": "standard_step_solver", "Extended": "extended_step_solver", "Symmetric": "symmetric_step_solver", "Asymmetric": "asymmetric_step_solver"}
+        for nm, mod in mods.items():
+            A[SOL + f"{mod}.{nm}StepSolver"] = (lambda nm_: lambda it, *a: (built.append((nm_, a)), Opaque("solver:" + nm_))[1])(nm)
+        user_made = []
+        params.fields["step_solver"] = PyFunc(lambda it, *a: (user_made.append(a), Opaque("solver:user"))[1], "user_step_solver_factory") if custom else None
+        factory = u.repo.module("pygradflow.step.solver").functions["step_solver"]  # (the package also has a MODULE of that name)
+        kind, val = u.raised(lambda: u.call(factory, problem, params, orig, dt, rho))
+        u.ensure(kind == "ok", f"step_solver:{names[k]}:no-raise", desc=f"escaping {val!r}" if kind != "ok" else "")
+        if kind != "ok":
+            return
+        if custom:
+            u.ensure(isinstance(val, Opaque) and val.tag == "solver:user" and len(user_made) == 1 and not built, "step_solver:user_factory_used_when_given")
+            u.ensure(len(user_made) == 1 and user_made[0][0] is problem and user_made[0][1] is params and user_made[0][2] is orig and user_made[0][3] is dt and user_made[0][4] is rho, "step_solver:user_factory_called_with(problem,params,iterate,dt,rho)")
+        else:
+            u.ensure(isinstance(val, Opaque) and val.tag == "solver:" + names[k] and len(built) == 1, f"step_solver:{names[k]}:class")
+            u.ensure(len(built) == 1 and built[0][1][0] is problem and built[0][1][1] is params and built[0][1][2] is orig and built[0][1][3] is dt and built[0][1][4] is rho, "step_solver:constructed_with(problem,params,iterate,dt,rho)")
+    else:
+        names = ["Simplified", "Full", "ActiveSet", "Globalized"]
+        k = u.path.choose_n(4, "newton type")
+        params = mk_params(u, newton_type=u.enum("pygradflow.params.NewtonType", names[k]))
+        orig = mk_iterate(u, problem, params, "orig", in_box=True)
+        func = u.obj("pygradflow.implicit_func.ImplicitFunc", problem=problem, orig_iterate=orig, dt=dt)
+        ssolver = u.obj(SOL + "standard_step_solver.StandardStepSolver", problem=problem, params=params, _func=func)
+        made = []
+        A["pygradflow.step.solver.step_solver"] = lambda it, p, pa, i, d, r: (made.append((p, pa, i, d, r)), ssolver)[1]
+        A[SOL + "standard_step_solver.StandardStepSolver.update_derivs"] = lambda it, s, i: None
+        A[SOL + "standard_step_solver.StandardStepSolver.update_active_set"] = lambda it, s, a: None
+        A["pygradflow.implicit_func.StepFunc.compute_active_set"] = lambda it, s, i, rho_, tau=None: u.vec("act", problem.fields["__n__"], kind="bool")
+        tau = u.real("tau") if u.path.choose("explicit tau") else None
+        kind, val = u.raised(lambda: u.call("pygradflow.newton.newton_method", problem, params, orig, dt, rho, tau))
+        u.ensure(kind == "ok", f"newton_method:{names[k]}:no-raise", desc=f"escaping {val!r}" if kind != "ok" else "")
+        if kind != "ok":
+            return
+        u.ensure(val.cls.name == f"{names[k]}NewtonMethod", f"newton_method:{names[k]}:class")
+        u.ensure(len(made) == 1 and made[0][2] is orig and made[0][3] is dt and made[0][4] is rho, "newton_method:step_solver_built_for(orig,dt,rho)")
+        u.ensure(val.fields.get("step_solver") is ssolver, "newton_method:method_owns_that_step_solver")
     u.cover("end")
